@@ -44,7 +44,7 @@ def generate(seed, tier):
                         'peer': rng.randrange(4), 'overlap': rng.random() < 0.2})
         elif x < 0.8:
             ops.append({'op': 'extend', 'mask': rng.getrandbits(8), 'miner': rng.randrange(12), 'dt': rng.choice([1, 30, 60]),
-                        'peer': rng.randrange(4)})
+                        'peer': rng.randrange(4), 'route': rng.choice(['relay', 'relay', 'response'])})
         elif x < 0.9:
             ops.append({'op': 'side', 'depth': rng.choice([1, 1, 2, 3]), 'len': rng.choice([1, 1, 2, 3, 4]),
                         'spec': LC.gen_tx_spec(rng), 'miner': rng.randrange(12), 'peer': rng.randrange(4)})
@@ -238,11 +238,15 @@ def execute(script):
             pending_submissions = []
             return check_pool('after submissions')
 
-        def deliver_block(blk, peer):
+        def deliver_block(blk, peer, route='relay'):
+            # route 'response': the block arrives as the answer to a request (bulk download path: no in-chain validation,
+            # the new state is installed as unvalidated) - the head changes all the same
             c = w.conn(peer)
             if c is None:
                 return False
-            c.send(M.DataMessage(M.DATA_BLOCK, W.roundtrip(blk)))
+            c.send(M.DataMessage(M.DATA_BLOCK, W.roundtrip(blk)), in_response_to=(0 if route == 'relay' else 7))
+            if route != 'relay':
+                res.bump('probe:head_change_through_bulk_download_path')
             w.settle(3000)
             return True
 
@@ -301,7 +305,7 @@ def execute(script):
                 if ts <= old.ts:
                     continue
                 blk = W.mine_honest(view, chosen, W.key(op.get('miner', 0) % 12), ts)
-                if not deliver_block(blk, op.get('peer', 0)):
+                if not deliver_block(blk, op.get('peer', 0), op.get('route', 'relay')):
                     continue
                 if not expect_block_accepted(blk):
                     res.bump('block_not_accepted')
@@ -418,7 +422,11 @@ def execute(script):
                 if rules.block_id(blk) in w.node_ids():
                     res.bump('other_property_anomaly')
                     break
-                if not check_pool('after a rejected block'):
+                if head().id != old.id:
+                    # documented behaviour: a rejected relay rolls a node that holds unvalidated (bulk-downloaded) blocks back
+                    # to its last validated state - a head change like any other as far as the pool is concerned
+                    res.bump('probe:rollback_to_last_validated_state')
+                if not after_head_change(old, 'after a rejected block'):
                     break
         if not res.violations:
             settle_submissions()
